@@ -645,10 +645,10 @@ impl Ctx {
                             ("IntoRaw", H::ArcB(a)) => H::RawB(Arc::into_raw(a)),
                             ("FromRaw", H::RawA(p)) => H::ArcA(Arc::from_raw(p)),
                             ("FromRaw", H::RawB(p)) => H::ArcB(Arc::from_raw(p)),
-                            ("IntoPtr", H::ArcA(a)) => H::RawA(<Arc<A> as arc_swap::RefCnt>::into_ptr(a)),
-                            ("IntoPtr", H::ArcB(a)) => H::RawB(<Arc<B> as arc_swap::RefCnt>::into_ptr(a)),
-                            ("FromPtr", H::RawA(p)) => H::ArcA(<Arc<A> as arc_swap::RefCnt>::from_ptr(p)),
-                            ("FromPtr", H::RawB(p)) => H::ArcB(<Arc<B> as arc_swap::RefCnt>::from_ptr(p)),
+                            ("IntoPtr", H::ArcA(a)) => H::RawA(<Arc<A> as arc_swap::RefCnt>::into_ptr(a) as *const A),
+                            ("IntoPtr", H::ArcB(a)) => H::RawB(<Arc<B> as arc_swap::RefCnt>::into_ptr(a) as *const B),
+                            ("FromPtr", H::RawA(p)) => H::ArcA(<Arc<A> as arc_swap::RefCnt>::from_ptr(p as *const <Arc<A> as arc_swap::RefCnt>::Base)),
+                            ("FromPtr", H::RawB(p)) => H::ArcB(<Arc<B> as arc_swap::RefCnt>::from_ptr(p as *const <Arc<B> as arc_swap::RefCnt>::Base)),
                             ("IntoOff", H::ArcA(a)) => H::OffA(Arc::into_raw_offset(a)),
                             ("IntoOff", H::ArcB(a)) => H::OffB(Arc::into_raw_offset(a)),
                             ("FromOff", H::OffA(a)) => H::ArcA(Arc::from_raw_offset(a)),
